@@ -42,8 +42,10 @@ def values(draw, n: int, mode: str, mag: float = 1e6):
         return [float(x) + 0.0 for x in draw(st.lists(fl, min_size=n, max_size=n))]
     if mode == "ulp":
         nb = draw(st.integers(1, 3))
-        base = draw(st.lists(st.floats(min_value=-mag, max_value=mag, allow_nan=False,
-                                       allow_infinity=False, allow_subnormal=False),
+        pow2 = st.tuples(st.sampled_from([-1.0, 1.0]), st.integers(-8, 10)).map(lambda sk: sk[0] * 2.0 ** sk[1])
+        base = draw(st.lists(st.one_of(st.floats(min_value=-mag, max_value=mag, allow_nan=False,
+                                                 allow_infinity=False, allow_subnormal=False),
+                                       pow2, st.just(0.0)),
                              min_size=nb, max_size=nb))
         picks = draw(st.lists(st.tuples(st.integers(0, nb - 1), st.integers(-2, 2)),
                               min_size=n, max_size=n))
